@@ -226,8 +226,8 @@ fn ods_gr_repeated_rows() {
 }
 
 // ---------------------------------------------------------------------------------------------------------------
-// KNOWN FINDING (findings/ods.json): interior blank row while the data starts in column B.  Facts are split so that the defect
-// (length, placement) does not mask the bounds; the *_bounds harness must pass, the other ones are registered as known findings.
+// interior blank row while the data starts in column B / C (regression harnesses of the fixed defect: blank interior rows were emitted
+// `col_max + 1` cells wide).  Facts are split (bounds / length / placement) so that a break of one does not mask the others.
 // ---------------------------------------------------------------------------------------------------------------
 #[kani::proof]
 fn ods_gr_interior_blank_colB_bounds() {
